@@ -410,6 +410,13 @@ func runC25(c *core.Ctx, s *Scenario) {
 		return
 	}
 	if !mon.Stopped {
+		if mon.Seq(d) != start+uint32(written) && mon.Pending(d) > 0 {
+			// the decoder is still waiting: what it took for the length field
+			// asks for more bytes than the writer put on the wire, i.e. the
+			// framing is not the one the negotiated algorithms prescribe
+			c.Violate(prop, "wire-framing", "[%s %s kexhash %s] dir %d seq %d (%s, %s): the writer has finished but %d bytes on the wire are no complete packet for the independent decoder: the length field it reads asks for more", s.Cipher, s.MAC, s.Hash, d, mon.Seq(d), s.Cipher, s.MAC, mon.Pending(d))
+			return
+		}
 		if mon.Seq(d) != start+uint32(written) {
 			c.Violate(prop, "wire-count", "[%s %s] the wire monitor decoded %d packets, the writer wrote %d", s.Cipher, s.MAC, mon.Seq(d)-start, written)
 			return
